@@ -1,6 +1,7 @@
 package vc
 
 import (
+	"go/token"
 	"fmt"
 	"go/types"
 	"os"
@@ -25,6 +26,7 @@ type PkgSpec struct {
 type World struct {
 	Repo      string
 	Prog      *ssa.Program
+	DefPos    map[token.Pos]bool
 	Pkgs      map[string]*ssa.Package // by key
 	Contracts []*Contract
 	ByFunc    map[*ssa.Function]*Contract
@@ -146,6 +148,19 @@ func Load(repo string, extraOverlay map[string][]byte) (*World, error) {
 	}
 	prog, spkgs := ssautil.AllPackages(pkgs, ssa.GlobalDebug)
 	w.Prog = prog
+	// positions of defining identifiers: the debug reference go/ssa keeps for a local's
+	// declaration records the value before the initialising store (the zero value)
+	w.DefPos = map[token.Pos]bool{}
+	for _, p := range pkgs {
+		if p.TypesInfo == nil {
+			continue
+		}
+		for id, obj := range p.TypesInfo.Defs {
+			if obj != nil {
+				w.DefPos[id.Pos()] = true
+			}
+		}
+	}
 	for i, p := range pkgs {
 		if spkgs[i] == nil {
 			return nil, fmt.Errorf("no SSA for %s", p.PkgPath)
